@@ -441,7 +441,56 @@ def big_pairs(rng):
     return ('big:' + k, A, B)
 
 
+def respell(rng, g):
+    """the same point set written differently: every sequence may get repeated consecutive vertices (at the start, in the
+    middle, at the closing point; once or twice) and every polygon ring may be reversed (shells and holes independently, so
+    both the OGC orientation and its opposite occur with and without repeats).  Returns (geometry, changed?)"""
+    changed = [False]
+
+    def rep(seq, ring):
+        if len(seq) < 2 or rng.random() < 0.35:
+            return seq
+        out = list(seq)
+        for _ in range(rng.choice([1, 1, 2])):
+            where = rng.choice(['start', 'middle', 'end'])
+            i = 0 if where == 'start' else len(out) - 1 if where == 'end' else rng.randrange(len(out))
+            out = out[:i + 1] + [out[i]] * rng.choice([1, 1, 2]) + out[i + 1:]
+        changed[0] = True
+        return out
+
+    def go(h):
+        t, d = h
+        if t == 'LineString' and d:
+            return (t, rep(d, False))
+        if t == 'LinearRing' and d:
+            return (t, rep(d, True))
+        if t == 'Polygon' and d:
+            rings = []
+            for r in d:
+                if rng.random() < 0.5:
+                    r = r[::-1]; changed[0] = True
+                rings.append(rep(r, True))
+            return (t, rings)
+        if t in ('MultiLineString', 'MultiPolygon', 'GeometryCollection'):
+            return (t, [go(x) for x in d])
+        return h
+    out = go(g)
+    return out, changed[0]
+
+
 def gen_case(rng):
+    kind, A, B = gen_case0(rng)
+    tag = ''
+    if rng.random() < 0.3:
+        A, ch = respell(rng, A)
+        tag = '~respelled' if ch else tag
+    if rng.random() < 0.3:
+        B, ch = respell(rng, B)
+        tag = '~respelled' if ch else tag
+    return (kind + tag, A, B)
+
+
+def gen_case0(rng):
     r = rng.random()
     if r < 0.16:
         return special_pairs(rng)
@@ -885,7 +934,10 @@ def run(ctx):
         M = m['M'].split(',')
         nontriv = M[0][:2] + M[0][3:5] != 'FFFF'
         ctx.count((wa, wb), nontriv)
-        kk = c.kind.split(':')[0] if c.kind.startswith(('xml', 'corpus')) else c.kind
+        if c.kind.endswith('~respelled'):
+            dist['respelled'] = dist.get('respelled', 0) + 1
+        kk = c.kind.replace('~respelled', '')
+        kk = kk.split(':')[0] if kk.startswith(('xml', 'corpus')) else kk
         dist['kind'][kk] = dist['kind'].get(kk, 0) + 1
         dist['dims'][m['dims']] = dist['dims'].get(m['dims'], 0) + 1
         dist['matrices'][M[0]] = dist['matrices'].get(M[0], 0) + 1
@@ -955,6 +1007,7 @@ def run(ctx):
                                      xml_relate_ops=len(xml), xml_checked=dist['xml_checked'], xml_skipped=dist['xml_skipped'],
                                      specification_cross_checked=dist['spec_checked'], invariance_cross_checked=dist['transform_checked'], protocol_checked=dist.get('protocol_checked', 0),
                                      witnesses_total=dist['witnesses'], witnesses_max=dist['max_witnesses'],
+                                     pairs_with_repeated_vertices_or_reversed_rings=dist.get('respelled', 0),
                                      pairs_with_inexact_node_on_three_segments=dist.get('fragile_pairs', 0), of_which_disagree_known_finding_C01_F3=dist.get('fragile_mismatch', 0))
     for c in cases[:200:40]:
         ctx.sample('%s | %s | %s' % (c.kind, scaled_wkt(c.A, c.s)[:120], scaled_wkt(c.B, c.s)[:120]))
